@@ -392,6 +392,7 @@ def encoding_relation(rep, ex: Explorer, cls=CI):
                 g = " ∧ ".join(show_pred(k if v else ("not", k))[:60] for k, v in case.guard) or "always"
                 rep.violation("C.relations", f"{site}:{lev.node.lineno}", "every conditional", "every conditional with a falsifying world gets its acceptance constraint: the loop over the conditionals runs to its end",
                               extracted=f"the loop is left by {case.sig[0]} at a conditional with {g}: the conditionals after it get no constraint", required="skip that conditional only (continue)", function=site)
+        seen_rel = set()
         for ev, Q in iter_events(p.events):
             if ev.kind == "minima_encoding" and Q:
                 loop_ev, case = Q[-1]
@@ -424,6 +425,7 @@ def encoding_relation(rep, ex: Explorer, cls=CI):
                     loop_ev, case = Q[-1]
                     evar = loop_ev.evar
                     n_rel += 1
+                    seen_rel.add(v.f)
                     terms = dict(v.f[1][0])
                     eta = ("isym", ("eta", evar))
                     mv = [t for t in terms if _name_prefix(t) == "mv_"]
@@ -449,6 +451,22 @@ def encoding_relation(rep, ex: Explorer, cls=CI):
                         have.add((_name_prefix(nm) if nm[0] == "isym" else "?", fam[1][0] if isinstance(fam, tuple) and len(fam) > 1 and isinstance(fam[1], tuple) else "?"))
                     elif isinstance(it, FormulaV):
                         have.add("rel")
+                        if it.f[0] == "rel" and it.f not in seen_rel:
+                            # the acceptance constraint put into the result without an append of its own (csp += [...]):
+                            # the same obligations, read off the result
+                            seen_rel.add(it.f)
+                            evar = sg[1]
+                            n_rel += 1
+                            terms = dict(it.f[1][0])
+                            eta = ("isym", ("eta", evar))
+                            mv = [t for t in terms if _name_prefix(t) == "mv_"]
+                            mf = [t for t in terms if _name_prefix(t) == "mf_"]
+                            ok = it.f[2] == ">" and it.f[1][1] == 0 and len(terms) == 3 and terms.get(eta) == 1 and len(mv) == 1 and len(mf) == 1 and terms[mv[0]] == -1 and terms[mf[0]] == 1
+                            rep.check(ok, "C.relations", site, "acceptance constraint", "η_i − mv_i + mf_i > 0 for every conditional",
+                                      extracted=F.show(it.f), required="η_i − mv_i + mf_i > 0", function=site)
+                            if mv and mf:
+                                same = _name_index(mv[0]) == _name_index(mf[0])
+                                rep.check(same, "KEY.no-positional", site, "mv/mf index", "mv and mf of one constraint carry the same index", extracted=f"{_name_index(mv[0])} / {_name_index(mf[0])}", required="equal", function=site)
                 else:
                     stray.append(repr(sg)[:60])
             want = {("mv_", "vsums"), ("mf_", "fsums"), "rel"}
